@@ -31,8 +31,8 @@ func init() {
 		Mutant{"C06", "trailing-slash-checks-second-char", "internal/conf/path.go",
 			"if name[len(name)-1] == '/' {", "if name[len(name)/2] == '/' {", "C06.valid_name.trailing_slash"},
 		Mutant{"C06", "findpathconf-skips-validation", "internal/conf/path.go",
-			"	err := IsValidPathName(name)\n	if err != nil {\n		return nil, nil, fmt.Errorf(\"invalid path name: %w (%s)\", err, name)\n	}\n\n	// gather",
-			"	// gather", "C06.find_path_conf.regexp_branch"},
+			"	err := IsValidPathName(name)\n	if err != nil {\n		return nil, nil, fmt.Errorf(\"invalid path name: %w (%s)\", err, name)\n	}\n\n	// static path configuration",
+			"	// static path configuration", "C06.find_path_conf"},
 		Mutant{"C06", "static-name-not-validated", "internal/conf/path.go",
 			"	case name == \"\" || name[0] != '~': // normal path\n		err := IsValidPathName(name)\n		if err != nil {\n			return fmt.Errorf(\"invalid path name '%s': %w\", name, err)\n		}\n",
 			"	case name == \"\" || name[0] != '~': // normal path\n", "C06.validate.static_name"},
